@@ -36,7 +36,7 @@ CASES = {   # function -> parameter kinds
     "conditional_chain": ["int"], "bytes_cmp": ["bytes", "bytes"], "int_conv": ["bytes"],
     "loop_break_continue": ["int"], "nested_loops": ["int"], "return_in_try_finally": ["bytes"], "chained_assign_and_swap": ["int", "int"],
     "none_and_membership": ["int", "int"], "default_and_keyword": ["int"], "closure_counter": ["int"], "list_methods": ["int", "int"],
-    "dict_methods": ["int"], "power_abs": ["int"], "join_genexp": ["byte", "byte"], "bool_index": ["int"], "walrus_and_star": ["byte", "byte"], "bytes_ctor": ["byte"], "overflow_paths": ["int"],
+    "dict_methods": ["int"], "power_abs": ["int"], "join_genexp": ["byte", "byte"], "bool_index": ["int"], "walrus_and_star": ["byte", "byte"], "reversed_and_unpack": ["byte", "byte"], "genexp_consumers": ["byte", "byte"], "bytes_ctor": ["byte"], "overflow_paths": ["int"],
 }
 REPO_CASES = [   # (file, qualname, [kinds], native accessor, extra parameter specs)
     ("ledger/pin.py", "BasePin.is_valid", ["bytes", "bool"], lambda: importlib.import_module("ledger.pin").BasePin.is_valid,
